@@ -197,9 +197,13 @@ CLAIMED = {
          "mapping regenerated) and the HTTP/1.1 server, for EVERY interleaving of cancel (early, repeated), watcher steps, exchange "
          "completions and unrelated connection events: when the accept loop sees the closed listener the shutdown flag is set "
          "(Serve returns ErrServerClosed) and no HTTP/1.1 exchange is in flight (serve_returns_ErrServerClosed by invariant), and "
-         "after drain four watcher steps close the listener (returns_after_drain); validated by cancelling a real workload"),
-   note=("PARTIAL: net/http.Server.Shutdown is an assumed contract; real scheduling and the OS are sampled. Accept errors other than "
-         "the closed listener are outside the model (D16)"),
+         "after drain four watcher steps close the listener (returns_after_drain); a connection whose handshake would begin on a "
+         "cancelled context is refused whatever the scheduler does (attempt_after_cancel_refused over the regenerated guard "
+         "handshake_guard; unguarded_served_witness = finding D20, repaired); validated by cancelling a real workload and by "
+         "stopping the real binary with SIGTERM / SIGINT"),
+   note=("PARTIAL: net/http.Server.Shutdown and crypto/tls's asynchronous interruption of a handshake are assumed contracts; real "
+         "scheduling and the OS are sampled. Accept errors other than the closed listener are outside the model (D16). Found and "
+         "fixed D20 (fix: commit 80c7406)"),
    technique="Lean 4 invariant proof over all interleavings + regenerated program-order facts + end-to-end cancellation scenarios",
    design='7/C17'),
  'C18': dict(
